@@ -880,3 +880,17 @@ mod test {
         low_limit.validate_resumption_from(&high_limit).unwrap_err();
     }
 }
+
+#[cfg(feature = "quinn_rs_quinn_verif")]
+impl ReservedTransportParameter {
+    /// A reserved parameter with a given id and payload (at most `MAX_PAYLOAD_LEN` bytes)
+    pub(crate) fn verif_new(id: VarInt, payload: &[u8]) -> Self {
+        let mut buf = [0u8; Self::MAX_PAYLOAD_LEN];
+        buf[..payload.len()].copy_from_slice(payload);
+        Self {
+            id,
+            payload: buf,
+            payload_len: payload.len(),
+        }
+    }
+}
